@@ -90,6 +90,49 @@ CLAIMED = {
     ),
 }
 
+READER_NOTE = ("Exhaustive only over the named symbol/byte alphabets up to 3-5 symbols (constants in the evidence); "
+               "beyond that seeded generators whose expected results all come from TLC. The numeric value of a JSON "
+               "number literal is left to C12 (harness: exact integers, strtod +-1e-6 otherwise). Crashes and "
+               "out-of-bounds reads are observed by ASan/UBSan on exact-size heap copies.")
+READER_TECH = "TLA+ executable reader spec + TLC bounded-exhaustive exploration and feed oracle; replay through every input kind"
+for pid, text, ref in [
+    ("C01", "JsonReader.tla (executable description of what deserializeJson accepts and denotes) is cross-checked "
+            "against a generator that spells random values as RFC 8259 texts and remembers what it meant; each text "
+            "then goes through every input kind into every destination pre-state on several builds and must give the "
+            "specification's code, value (strings byte-exact, integers exact, members in order, last duplicate wins) "
+            "and consumed bytes; every short token string is covered exhaustively.", "DESIGN.md §4 C01"),
+    ("C03", "For ANY byte string the specifications (JsonReader.tla, MsgPack.tla) give the code, the document and the "
+            "bytes that may be consumed. Seeded truncations, mutations, random bytes, huge announced lengths and the "
+            "bounded-exhaustive alphabets are replayed through 10-14 input kinds (exact-size heap blocks, counted "
+            "reads) on 7 builds; code/document/consumption must be identical across kinds and equal to the "
+            "specification; afterwards the document is inspected, serialized, cleared and reused, and the memory "
+            "requested is bounded linearly in the input.", "DESIGN.md §4 C03"),
+    ("C09", "MsgPack.tla's decoder is the model of MsgPackDeserializer and the definition of the format; TLC checks on "
+            "every byte string of two header alphabets: prefixes give IncompleteInput/EmptyInput, 0xC1 and non-string "
+            "keys give InvalidInput, results depend on consumed bytes only, Canon re-encoding round-trips. An "
+            "independent encoder produces every legal encoding of random values (cross-checked with the spec), "
+            "prefixes and corruptions; replayed with USE_DOUBLE 0/1 and a small configuration.", "DESIGN.md §4 C09"),
+    ("C10", "JsonReader.tla is the executable description of the accepted dialect; TLC explores every string over 7 "
+            "symbol alphabets (structure, strings, numbers, keywords, comments, \\u escapes, tokens) for limits 0..2, "
+            "checks the classification properties on the model and emits every (input, result); plus seeded mutants. "
+            "All cases replayed through every input kind on builds for the comment/NaN/Infinity/unicode options.",
+     "DESIGN.md §4 C10"),
+    ("C11", "Skip-mode machines (JSON and MessagePack) vs the declarative Project(value, filter): TLC checks equality "
+            "for every explored input and 12-13 filters; the feed oracle emits both for seeded (input, filter) pairs; the "
+            "library is run with Filter(...) and must agree, must not crash on any input, and must not request more "
+            "memory (total and peak) than the unfiltered run of the same input.", "DESIGN.md §4 C11"),
+    ("C15", "Both reader specs track the deepest recursion level (parse and skip mode): TLC checks level <= limit and "
+            "nesting() <= limit on every explored input; bracket/header families (n = L, L+1, L+2, 5000; closed and "
+            "unclosed; with discarding filters; L up to 255) are replayed, the spec gives the expected code, and the "
+            "stack consumed for 5000 levels must not exceed that for L+1 levels.", "DESIGN.md §4 C15"),
+    ("C16", "Both reader specs return the number of bytes taken from the input; TLC checks that results depend on the "
+            "consumed prefix only; the feed oracle computes what each successive call returns on concatenated "
+            "documents (arbitrary whitespace; back-to-back MessagePack); replayed on std::istream, byte-wise and "
+            "block-wise readers and the Arduino Stream fake, comparing documents and stop positions.",
+     "DESIGN.md §4 C16"),
+]:
+    CLAIMED[pid] = dict(category="model_checking", text=text, design_ref=ref, note=READER_NOTE, technique=READER_TECH)
+
 NOT_YET = {
 }
 
